@@ -20,12 +20,12 @@ Mk(i, kd) ==
     idCounty |-> IF isX THEN kd.idc ELSE kd.co, idDistrict |-> IF isX THEN kd.idd ELSE kd.di,
     rep |-> k \in {"rep", "blkRep", "tfRep", "unexpRep"}, votes |-> v,
     blockUnit |-> k = "blkRep", zeroBase |-> k = "zeroNon", tfStrange |-> k = "tfRep",
-    outlierT |-> FALSE, outlierM |-> FALSE, kind |-> k, pt |-> 0, pm |-> 0,
+    nullRes |-> FALSE, outlierT |-> FALSE, outlierM |-> FALSE, kind |-> k, pt |-> 0, pm |-> 0,
     pred |-> IF k = "part" THEN v + 1 ELSE v, lower |-> <<v>>, upper |-> <<v + 2>> ]
 MkX(x) ==
   [ inBase |-> FALSE, inFeed |-> TRUE, bstate |-> NA, fstate |-> x.st, county |-> NA, cls |-> NA, district |-> NA,
     idCounty |-> x.idc, idDistrict |-> x.idd, rep |-> x.rep, votes |-> 1024, blockUnit |-> FALSE, zeroBase |-> FALSE,
-    tfStrange |-> FALSE, outlierT |-> FALSE, outlierM |-> FALSE, kind |-> "extra", pt |-> 0, pm |-> 0,
+    tfStrange |-> FALSE, nullRes |-> FALSE, outlierT |-> FALSE, outlierM |-> FALSE, kind |-> "extra", pt |-> 0, pm |-> 0,
     pred |-> 1024, lower |-> <<1024>>, upper |-> <<1024>> ]
 
 AllKeyStrings == States \cup XStates \cup Counties \cup {"c9"} \cup Classes \cup Districts \cup {"d9"}
